@@ -227,16 +227,41 @@ class ArtimTask(Task):
                      z3.Not(e), detail="Timer.stop() after more than the timeout has elapsed leaves expired == True; the reactor then "
                      f"queues Evt18 in {ns_}, which Table 9-10 does not define")
         I.ob("C05/ARTIM/actions-that-stop-the-timer-were-found", n_checked >= 4, detail=f"{n_checked}")
+        # the other half of the invariant "ARTIM runs only in Sta2 / Sta13": an action that leaves the timer RUNNING (its last ARTIM
+        # effect is a start) ends in a state for which Evt18 is defined; together with the obligations above, an expiry is reported
+        # only in those states.  (That the real actions have exactly these effects is C04's obligation, re-proved under this id.)
+        n_start = 0
+        for name, spec in sorted(S.ACTIONS.items()):
+            eff, nxt = spec["effects"], spec["next"]
+            branches = [(eff[k], nxt[k]) for k in eff] if isinstance(eff, dict) else [(eff, nxt)]
+            for effects, ns_ in branches:
+                art = [x for x in effects if x[0] == "artim"]
+                if art and art[-1] == ("artim", "start"):
+                    n_start += 1
+                    I.ob(f"C05/ARTIM/{name}-leaves-the-timer-running:its-next-state-{ns_}-defines-Evt18", ns_ in ARTIM_STATES)
+        I.ob("C05/ARTIM/actions-that-start-the-timer-were-found", n_start >= 4, detail=f"{n_start}")
+
+
+# the ARTIM argument above is made over the PS3.8 action table; that each real action function has exactly the table's effects
+# (ARTIM start/stop included) and next state, and that do_action performs the table's action, is C04's contract - borrowed
+RELABEL = {"C04/": "C05/actions:"}
+RELABEL_ONLY = {"C04/": r"protocol-effects-are-exactly-PS3\.8|next-state-is-PS3\.8|performs-exactly-the-Table-9-10-action|"
+                        r"moves-to-the-state-the-action-returned|pair-not-in-Table-9-10"}
 
 
 def tasks(tier):
     from contracts.C27 import SendTask
     from contracts.dul_reactor import DulReactorTask
-    return [ProcessPrimitiveTask(), ProducersScan(), ClosureTask(), ArtimTask(), SendTask(), DulReactorTask()]
+    from contracts import C04
+    return [ProcessPrimitiveTask(), ProducersScan(), ClosureTask(), ArtimTask(), SendTask(), DulReactorTask()] + \
+        [C04.ActionTask(a) for a in sorted(S.ACTIONS)] + [C04.DoActionTask(e) for e in S.EVENTS]
 
 
 def replay(rec):
     from pyvc.replay import run_replay
+    oid = rec.get("id", "")
+    if oid.startswith("C05/actions:"):
+        return run_replay("C04", dict(rec, id="C04/" + oid[len("C05/actions:"):]))
     return run_replay("C05", rec)
 
 
